@@ -1225,14 +1225,39 @@ func (c *c15Perm) checkErrors() (int64, *c15Failure) {
 		return c15Violation([]c15Draw{c15U("seed", c.seed), c15I("helper", int64(h)), c15I("n", int64(n)), c15I("m", int64(m)), c15I("errorCase", 1)},
 			"%s %s", c15CallName(h, n, m), what)
 	}
+	// a rejected call leaves the generator where it was: it reads nothing from the source (otherwise two generators with
+	// equal seeds and equal histories of accepted calls give different outputs); a call that keeps reading is stopped
+	guarded := func(f func()) (runaway bool) {
+		defer func() {
+			if rec := recover(); rec != nil {
+				if _, ok := rec.(c15Runaway); !ok {
+					panic(rec)
+				}
+				runaway = true
+			}
+		}()
+		f()
+		return false
+	}
+	consumed := func() string {
+		return fmt.Sprintf("was given inconsistent sizes and read %d value(s) from the random source before (or instead of) returning its error: a rejected call must leave the generator where it was", t.reads)
+	}
 	for _, n := range []int{-1, -2, -7, -256, -65536, minInt, minInt + 1} {
 		t.reads = 0
-		if res, err := c.p.Permutation(n); err == nil {
+		var res []int
+		var err error
+		if guarded(func() { res, err = c.p.Permutation(n) }) || err == nil {
 			return evals, bad(c15Permutation, n, n, fmt.Sprintf("returned %v without an error", res))
 		}
+		if t.reads != 0 {
+			return evals, bad(c15Permutation, n, n, consumed())
+		}
 		swaps = 0
-		if err := c.p.Shuffle(n, swap); err == nil || swaps != 0 {
+		if guarded(func() { err = c.p.Shuffle(n, swap) }) || err == nil || swaps != 0 {
 			return evals, bad(c15Shuffle, n, n, fmt.Sprintf("returned err=%v after %d swap calls", err, swaps))
+		}
+		if t.reads != 0 {
+			return evals, bad(c15Shuffle, n, n, consumed())
 		}
 		evals += 2
 	}
@@ -1249,11 +1274,21 @@ func (c *c15Perm) checkErrors() (int64, *c15Failure) {
 	for _, p := range pairs {
 		n, m := p[0], p[1]
 		t.reads = 0
-		if res, err := c.p.SubPermutation(n, m); err == nil {
+		var res []int
+		var err error
+		ran := guarded(func() { res, err = c.p.SubPermutation(n, m) })
+		if t.reads != 0 {
+			return evals, bad(c15SubPermutation, n, m, consumed())
+		}
+		if ran || err == nil {
 			return evals, bad(c15SubPermutation, n, m, fmt.Sprintf("returned %d elements without an error", len(res)))
 		}
 		swaps = 0
-		if err := c.p.Samples(n, m, swap); err == nil || swaps != 0 {
+		ran = guarded(func() { err = c.p.Samples(n, m, swap) })
+		if t.reads != 0 {
+			return evals, bad(c15Samples, n, m, consumed())
+		}
+		if ran || err == nil || swaps != 0 {
 			return evals, bad(c15Samples, n, m, fmt.Sprintf("returned err=%v after %d swap calls", err, swaps))
 		}
 		evals += 2
